@@ -293,6 +293,10 @@ theorem finalName_sign (name : String) (hn : name ∈ signNames) (p : Prev) (h :
   simp only [signNames, List.mem_cons, List.not_mem_nil, or_false] at hn
   rcases h with h | h | h <;> rcases hn with rfl | rfl <;> subst h <;> decide
 
+theorem signSym_pm (name : String) :
+    ¬ (signSym name ≠ "+" ∧ signSym name ≠ "-" ∧ signSym name ≠ " " ∧ signSym name ≠ "," ∧ signSym name ≠ ":") := by
+  unfold signSym; split <;> simp
+
 theorem goal_sign (name : String) (a : Ast) (hn : name ∈ signNames) (hca : Canon a) (haa : isAtom a = true) (iha : Goal a) :
     Goal (.op name [a]) := by
   intro s he ht hok
@@ -312,7 +316,7 @@ theorem goal_sign (name : String) (a : Ast) (hn : name ∈ signNames) (hca : Can
   have hne : name ≠ signSym name := by
     have := f3; rw [f1] at this; exact this
   have hstep : step s (.opr (signSym name)) = .ok ⟨.op name :: bump s.st, s.out, .opr⟩ := by
-    simp only [step, f2, false_and, if_false, oprStep, f1, h1, hne, popWhile_okTop 7 (by omega) s.st hok' s.out, h4]
+    simp only [step, signSym_pm name, false_and, if_false, oprStep, f1, h1, hne, popWhile_okTop 7 (by omega) s.st hok' s.out, h4]
   rw [runToks_cons _ _ _ _ hstep (by simp)]
   have := iha ⟨.op name :: bump s.st, s.out, .opr⟩ (Or.inr (Or.inr rfl)) (by simp [TopLO]) (Or.inl haa)
   rw [this]
@@ -370,7 +374,7 @@ theorem goal_bin (name : String) (a b : Ast) (hn : name ∈ binNames) (hca : Can
   have hop : step (after a ⟨.lp 0 .pos false :: s.st, s.out, .lparen⟩) (.opr name) =
       .ok ⟨.op name :: .lp 1 .pos false :: s.st, a :: s.out, .opr⟩ := by
     have hfn := finalName_bin name (prevAfter a) hpa
-    simp only [step, hnp, false_and, if_false, oprStep, after, hfn, hp, if_true, bump,
+    simp only [step, hpa, not_true_eq_false, and_false, if_false, hnp, oprStep, after, hfn, hp, if_true, bump,
       flush_popWhile a hca p (by omega), popWhile_lp]
   rw [runToks_cons _ _ _ _ hop (by simp)]
   -- right operand
